@@ -100,10 +100,11 @@ def _cpu_seconds(pid):
         return 0.0
 
 
-def run_case(binary, idx, cpu_limit=2.0, wall_limit=180):
+def run_case(binary, idx, cpu_limit=1.5, wall_limit=300):
     """Run one layout in a fresh process. A layout needs milliseconds; undefined behaviour can loop forever, so the run is
     cut when the process has BURNT `cpu_limit` seconds of CPU (not wall time: the machine may be busy) and what it printed
-    so far is kept."""
+    so far is kept. (llgo binaries are single-threaded; the reference binary gets a far higher limit because the idle
+    threads of Go's scheduler accumulate CPU time on a busy machine.)"""
     import subprocess
     import tempfile
     with tempfile.TemporaryFile() as ef:
@@ -180,16 +181,19 @@ def run_all(bins, n, workers=8):
     from concurrent.futures import ThreadPoolExecutor
     jobs = [(name, ci) for name in bins for ci in range(n)]
     with ThreadPoolExecutor(max_workers=workers) as ex:
-        res = list(ex.map(lambda j: run_case(bins[j[0]], j[1]), jobs))
+        res = list(ex.map(lambda j: run_case(bins[j[0]], j[1], cpu_limit=(60.0 if j[0] == "ref" else 1.5)), jobs))
     out = {name: [None] * n for name in bins}
     for (name, ci), r in zip(jobs, res):
+        if r[0] == "crash:timeout":
+            # cut by the CPU limit: a genuine endless loop reproduces; a run disturbed by a busy machine does not
+            r = run_case(bins[name], ci, cpu_limit=(120.0 if name == "ref" else 3.0))
         out[name][ci] = r
     return out
 
 
 def run(ctx, args):
     quick = ctx.tier == "quick"
-    n_gen = int(os.environ.get("VERIF_C04_N", "230" if quick else "1500"))
+    n_gen = int(os.environ.get("VERIF_C04_N", "180" if quick else "1500"))
     rng = ctx.rng
     st = lean_check(ctx, ["LlgoVerif.Props.C04"], ["LlgoVerif/Props/C04.lean"],
                     extra_files=["LlgoVerif/Model/Defer.lean", "LlgoVerif/Spec/DeferSem.lean", "LlgoVerif/Lemmas/Defer.lean"],
@@ -205,13 +209,13 @@ def run(ctx, args):
 
     corpus = load_corpus()
     batches = []
-    per = 300 if quick else 500
+    per = 400 if quick else 500
     gen = [dg.gen_case(rng, "gen-%d" % i) for i in range(n_gen)]
     # systematic single-function layouts: every sequence of <= 1 (quick) / <= 3 (thorough) defer statements over
     # {top level, taken if, skipped if, for of 0 / 2 iterations} x {with, without argument node} x fault position
     enum = dg.enum_cases(1 if quick else int(os.environ.get("VERIF_C04_ENUM", "3")))
     if quick:
-        enum += rng.sample(dg.enum_cases(3), 60)
+        enum += rng.sample(dg.enum_cases(3), 40)
     allc = corpus + enum + gen
     if getattr(args, "replay", None):
         # ./check C04 --replay replay/C04/<key>.json : run only the recorded layout (plus the corpus witnesses)
